@@ -34,20 +34,40 @@ value of the unified type": the type of the outcome conforms to the unified type
 optional-attribute annotation -/
 def yieldsUnified (result : Ty) (r : Value) : Bool := conformsTo result r && noOptional r
 
-/-- clause "safe unification never relies on an unsafe conversion", for one slot:
-a plan that `GetConversion(input, result)` — safe mode — offers, or the two closures
-that involve no conversion table at all -/
-def safePlanAt (E : Env) (ty result : Ty) : UConv → Bool
-  | .plan p => getConv E ty result false == some p
-  | .constDyn => true
-  | .thenOrig _ _ => false
+/-- what "a slot filled the direct way" is: nil when the input type `Equals` the result,
+else the conversion `GetConversion[Unsafe](ty, result)` offers; outer `none` = there is
+no such conversion -/
+def slotOf (E : Env) (uns : Bool) (result ty : Ty) : Option (Option UConv) :=
+  if ty.equals result then some none else (getConv E ty result uns).map fun p => some (.plan p)
 
-/-- the types a composed closure was built from: `mid` is the list / map type the
-tuples / objects unified to on their own -/
-def safeComposedAt (E : Env) (ty mid result : Ty) : UConv → Bool
-  | .thenOrig (some (.plan p)) (.plan q) =>
-    getConv E ty mid false == some p && getConv E mid result false == some q
-  | _ => false
+/-- a tuple among lists / an object among maps: `ty` is the tuple (object) type, `mid`
+the list (map) type the tuples (objects) unify to on their own, `t` the unified type -/
+def structColl (ty mid t : Ty) : Bool :=
+  (isTupleTy ty && isListTy mid && isListTy t) || (isObjectTy ty && isMapTy mid && isMapTy t)
+
+/-- How one slot `c` of the returned slice relates to its input type `ty` and the unified
+type `t` — every slot `unify` can return is of one of these five forms
+(`Lemmas/UnifySlots.lean`): -/
+inductive SlotRel (E : Env) (uns : Bool) (t ty : Ty) : Option UConv → Prop
+  /-- filled the direct way -/
+  | direct {c : Option UConv} : slotOf E uns t ty = some c → SlotRel E uns t ty c
+  /-- the chosen candidate of the preference loop itself -/
+  | self : ty = t → SlotRel E uns t ty none
+  /-- unifyAllAsDynamic -/
+  | allDyn : t = .dyn → SlotRel E uns t ty (some .constDyn)
+  /-- a tuple among lists (object among maps) whose own list (map) type already is the
+  result: the first step alone -/
+  | viaEq {mid : Ty} {p : Plan} : structColl ty mid t = true → (mid.equals t = true ∨ mid = t) →
+      getConv E ty mid uns = some p → SlotRel E uns t ty (some (.plan p))
+  /-- … or differs from it: the composed closure -/
+  | composed {mid : Ty} {p q : Plan} : structColl ty mid t = true → mid.equals t = false →
+      getConv E ty mid uns = some p → getConv E mid t uns = some q →
+      SlotRel E uns t ty (some (.thenOrig (some (.plan p)) (.plan q)))
+
+/-- … for the whole slice -/
+def SlotsRel (E : Env) (uns : Bool) (t : Ty) (types : List Ty) (cs : Convs) : Prop :=
+  cs.length = types.length ∧
+    ∀ (i : Nat) (ty : Ty), types[i]? = some ty → ∃ c, cs[i]? = some c ∧ SlotRel E uns t ty c
 
 /-- the outcome of an applied conversion never is a value of another type:
 `ok` of the unified type, or an error (or the model ran out of fuel) -/
